@@ -1,5 +1,7 @@
 import PallasVerif.Model.Cbor
+import PallasVerif.Model.CborFast
 import PallasVerif.Model.Utxo
+import PallasVerif.Model.Traverse
 /-
   Views of ledger CBOR taken directly on the generic concrete syntax tree (`Model/Cbor.lean`),
   with no typed decoder: which items of a transaction / block are the inputs, outputs, collateral,
@@ -232,5 +234,12 @@ def viewBlock (bs : Bytes) : Option BlockView :=
   match parseItem bs with
   | some (top, []) => viewBlockItem top
   | _ => none
+
+/-- the block record the traversal (`Model/Traverse.lean`) works on, read off the generic syntax
+    tree of the block bytes: every part is kept as its original byte span; the aux map is what
+    decoding the wire map into a `BTreeMap` yields -/
+def recordOfView (v : BlockView) : Traverse.Block Bytes Bytes Bytes :=
+  { bodies := v.bodies.map Item.encode, wits := v.wits.map Item.encode,
+    aux := Traverse.auxOfWire (v.auxWire.map fun p => (p.1, p.2.encode)), invalid := v.invalid }
 
 end PallasVerif.TxView
